@@ -146,6 +146,13 @@ impl Desc {
                 )));
             }
 
+            if label_names.contains(label_name) {
+                return Err(Error::Msg(format!(
+                    "variable label name {} is also a const label name",
+                    label_name
+                )));
+            }
+
             if !label_names.insert(format!("${}", label_name)) {
                 return Err(Error::Msg(format!(
                     "duplicate variable label name {}",
